@@ -469,11 +469,17 @@ func (c *Ctx) keyRules(key string, entry *ssa.Function, K pathPred, idRules func
 		if !ok {
 			return false
 		}
-		okL, _, n := cc.GuardLoop(g, genv, &GCheck{Name: "purpose ∈ allowedPurposes", NoDescend: true, MatchOK: func(cc *Ctx, v ssa.Value, env Env) bool {
-			lk, isL := v.(*ssa.Lookup)
-			return isL && cc.Path(lk.X, env) == "global:"+pPV+".allowedPurposes" && purpElem(cc.Path(lk.Index, env))
-		}})
-		return okL && n > 0
+		inTable := func(isElem func(string) bool) *GCheck {
+			return &GCheck{Name: "purpose ∈ allowedPurposes", NoDescend: true, MatchOK: func(cc *Ctx, v ssa.Value, env Env) bool {
+				lk, isL := v.(*ssa.Lookup)
+				return isL && cc.Path(lk.X, env) == "global:"+pPV+".allowedPurposes" && isElem(strings.TrimSuffix(strings.TrimPrefix(cc.Path(lk.Index, env), "conv<document.KeyPurpose>("), ")"))
+			}}
+		}
+		if okL, _, n := cc.GuardLoop(g, genv, inTable(purpElem)); okL && n > 0 {
+			return true
+		}
+		// or with the standard search functions: refuse when IndexFunc / ContainsFunc finds a purpose outside the table
+		return cc.forAllBySearch(g, genv, kPurp, func(elem string) *GCheck { return inTable(pathIs(elem)) })
 	}})
 	c.forAllDeep("C13.G1", k+":type-admitted-for-purposes", entry, nil, &GCheck{Name: "key type admitted for every purpose (and in the general table when there is none)", MatchCall: func(cc *Ctx, call *ssa.Call, env Env) bool {
 		g, genv, ok := onKeyData(call, cc, env)
@@ -482,7 +488,15 @@ func (c *Ctx) keyRules(key string, entry *ssa.Function, K pathPred, idRules func
 		}
 		ok1, _, n1 := cc.GuardLoop(g, genv, &GCheck{Name: "allowedKeyTypes[purpose] ok", NoDescend: true, MatchOK: func(cc *Ctx, v ssa.Value, env Env) bool {
 			lk, isL := v.(*ssa.Lookup)
-			return isL && cc.Path(lk.X, env) == "global:"+pPV+".allowedKeyTypes" && purpElem(cc.Path(lk.Index, env))
+			if !isL {
+				return false
+			}
+			if cc.Path(lk.X, env) == "global:"+pPV+".allowedKeyTypes" && purpElem(cc.Path(lk.Index, env)) {
+				return true
+			}
+			// chained form allowedKeyTypes[purpose][type]: an unknown purpose yields a nil map in which nothing is found
+			in, isIn := lk.X.(*ssa.Lookup)
+			return isIn && !in.CommaOk && cc.Path(in.X, env) == "global:"+pPV+".allowedKeyTypes" && purpElem(cc.Path(in.Index, env))
 		}})
 		ok2, _, n2 := cc.GuardLoop(g, genv, &GCheck{Name: "admitted[type] ok", NoDescend: true, MatchOK: func(cc *Ctx, v ssa.Value, env Env) bool {
 			lk, isL := v.(*ssa.Lookup)
@@ -549,31 +563,50 @@ func (c *Ctx) memberRuleFn(g *ssa.Function) (setsOK bool, shapeOK bool) {
 	// lookup of which only the ok is used (a value test such as m[k] != nil reads a null-valued member as absent, so
 	// an object carrying both one-of members, one of them null, counts as carrying one)
 	ok3, n3 := true, 0
-	forEachInstr(g, func(in ssa.Instruction) {
-		// a presence helper (`has(m, k)` returning the ok of m[k]) is the same test
-		if cl, isC := in.(*ssa.Call); isC {
-			if h := cl.Call.StaticCallee(); h != nil {
-				if si, isMM := c.isMapMembershipFn(h); isMM && si < len(cl.Call.Args) && c.Path(cl.Call.Args[si], nil) == "$0" {
-					n3++
-				}
-			}
+	var walk func(fn *ssa.Function, key ssa.Value, d int)
+	walk = func(fn *ssa.Function, key ssa.Value, d int) {
+		if d > 2 || fn.Blocks == nil {
 			return
 		}
-		lk, isL := in.(*ssa.Lookup)
-		if !isL || c.Path(lk.X, nil) != "$0" {
-			return
-		}
-		n3++
-		if !lk.CommaOk {
-			ok3 = false
-		} else if v := extractOf2(lk, 0); v != nil && v.Referrers() != nil {
-			for _, r := range *v.Referrers() {
-				if _, dbg := r.(*ssa.DebugRef); !dbg {
-					ok3 = false
+		forEachInstr(fn, func(in ssa.Instruction) {
+			// a presence helper (`has(m, k)` returning the ok of m[k]) is the same test; any other helper that is handed
+			// the key object is looked into
+			if cl, isC := in.(*ssa.Call); isC {
+				h := cl.Call.StaticCallee()
+				if h == nil || !inModule(h) {
+					return
+				}
+				for i, a := range cl.Call.Args {
+					if stripConv(a) != key || i >= len(h.Params) {
+						continue
+					}
+					if si, isMM := c.isMapMembershipFn(h); isMM && si == i {
+						n3++
+					} else if h != fn {
+						walk(h, h.Params[i], d+1)
+					}
+				}
+				return
+			}
+			lk, isL := in.(*ssa.Lookup)
+			if !isL || stripConv(lk.X) != key {
+				return
+			}
+			n3++
+			if !lk.CommaOk {
+				ok3 = false
+			} else if v := extractOf2(lk, 0); v != nil && v.Referrers() != nil {
+				for _, r := range *v.Referrers() {
+					if _, dbg := r.(*ssa.DebugRef); !dbg {
+						ok3 = false
+					}
 				}
 			}
-		}
-	})
+		})
+	}
+	if len(g.Params) > 0 {
+		walk(g, g.Params[0], 0)
+	}
 	return true, ok1 && ok2 && ok3 && n1 > 0 && n2 > 0 && n3 >= 2
 }
 
